@@ -3,12 +3,12 @@
 Model: Group.tla (one action per critical section of group.go) against GroupMonitor, 2 operators + 2 non-operators,
 every description, reloads, all interleavings, exhaustive; the faithful switch Fixed_F5=FALSE re-finds the window in
 which a non-operator joined an autolock group after its last operator left.
-Conformance: (i) TLC-simulated + seeded operation sequences on the real group package (fake group.Client values, real
+Conformance: (0) on the real server, an autolock group whose operators are demoted at run time (SigMonitor); (i) TLC-simulated + seeded operation sequences on the real group package (fake group.Client values, real
 description files, reloads); (ii) racing goroutines with randomised yields at the hooks; both recorded in
 linearisation order (hooks numbered under Group.mu) and validated by Trace_Group."""
 import json, os, shutil
 import common as C
-import grp
+import grp, sig
 
 PID = "C10"
 
@@ -28,9 +28,10 @@ def run(tier, replay=None):
         if not r.violated:
             raise C.Inconclusive("model no longer reproduces the F5 admission window")
         sd = C.seed()
+        sig_replay = bool(replay) and "clause" in json.load(open(replay))["replay"]
         behs = []
         if replay:
-            behs = json.load(open(replay))["replay"].get("behaviours", [])
+            behs = [] if sig_replay else json.load(open(replay))["replay"].get("behaviours", [])
         else:
             _, raw = C.tlc_simulate(w, "Sim_Group.tla", "Sim_Group.cfg", num=(300 if thorough else 60), depth=45, sd=sd, timeout=600)
             seen = set()
@@ -67,6 +68,10 @@ def run(tier, replay=None):
                 rep.sample({"mode": mode, "events": behs_ev[0]["events"][:8]})
             if behs_ev and mode == "conc":
                 rep.sample({"mode": mode, "events": behs_ev[0]["events"][:6]})
+        # the same rule seen through the REAL server, where permissions change at run time (op / unop): autolock group, operators
+        # demoted by a colleague, the last one leaving (SigMonitor's C10 clause)
+        if not replay or sig_replay:
+            sig.run(rep, w, tier, PID, replay if sig_replay else None, corpus_only="autolock-")
         rep.cov["trace_events"] = total
         distinct = {json.dumps([e.get("ev"), e.get("op"), e.get("n"), e.get("locked"), e.get("dup"), e.get("b"), e.get("kind")]) for e in allev}
         rep.cases(total, len(distinct))
